@@ -5,3 +5,4 @@ import ClvmModel.Proto.Varint
 import ClvmModel.Proto.Alloc
 import ClvmModel.Proto.Crypto
 import ClvmModel.Proto.Serde2026
+import ClvmModel.Alloc.Ref
